@@ -174,6 +174,61 @@ def build(spec, backend="lambda", cls=None):
     return m
 
 
+def build_mixed(spec, rng, backend="lambda"):
+    """Every single-transition event is entered through a randomly chosen route (Event object, rate-carrying Transition in
+    event=, legacy transition= / birth_death= lists with births named by origin or destination, incremental add_* call);
+    multi-transition events stay Event objects.  The resulting event ORDER differs from the spec's, so the caller must compare
+    order-insensitively or use the returned permutation (list of spec event indices in model order)."""
+    from pygom import Event, SimulateOde, Transition
+    from pygom.model import ode_utils
+    ev_arg, tr_arg, bd_arg, later = [], [], [], []
+    order_ev, order_tr, order_bd, order_later = [], [], [], []
+    for j, e in enumerate(spec["events"]):
+        single = len(e["trans"]) == 1
+        r = rng.random()
+        t0 = e["trans"][0]
+        if not single or r < 0.35:
+            ev_arg.append(Event(rate=e["rate"], transition_list=[make_transition(t) for t in e["trans"]]))
+            order_ev.append(j)
+        elif r < 0.55:
+            ev_arg.append(make_transition(t0, equation=e["rate"]))
+            order_ev.append(j)
+        elif r < 0.8:
+            if t0[0] == "T":
+                tr_arg.append(make_transition(t0, equation=e["rate"]))
+                order_tr.append(j)
+            else:
+                tr = make_transition(t0, equation=e["rate"])
+                if t0[0] == "B" and rng.random() < 0.5:
+                    tr = Transition(origin=t0[2], equation=e["rate"], transition_type="B", magnitude=str(t0[3]))
+                bd_arg.append(tr)
+                order_bd.append(j)
+        else:
+            later.append((j, e))
+            order_later.append(j)
+    od = [Transition(origin=s, equation=eq, transition_type="ODE") for s, eq in spec["odes"]]
+    dp = [(n, eq) for n, eq in spec["derived"]] or None
+    m = SimulateOde(state=state_argument(spec), param=param_argument(spec), derived_param=dp, event=ev_arg or None,
+                    transition=tr_arg or None, birth_death=bd_arg or None, ode=od or None)
+    for j, e in later:
+        t0 = e["trans"][0]
+        if t0[0] == "T" and rng.random() < 0.5:
+            m.add_transition(make_transition(t0, equation=e["rate"]))
+        elif t0[0] != "T" and rng.random() < 0.5:
+            m.add_birth_death(make_transition(t0, equation=e["rate"]))
+        else:
+            m.add_event(Event(rate=e["rate"], transition_list=[make_transition(t0)]))
+    if backend is not None:
+        m._SC = ode_utils.compileCode(backend=backend)
+    return m, order_ev + order_tr + order_bd + order_later
+
+
+def permuted_spec(spec, order):
+    s = dict(spec)
+    s["events"] = [spec["events"][j] for j in order]
+    return s
+
+
 def eval_point(rng, spec, lo=0.5, hi=20.0):
     x = [round(rng.uniform(lo, hi), 4) for _ in spec["states"]]
     th = []
